@@ -19,10 +19,10 @@ make -C src -j$J > $D/confirm_build.log 2>&1 && make -C src ppl.hh >> $D/confirm
 echo "BUILD ok"
 for t in "$@"; do
   (cd $MUT && make -C $t -j$J check > $D/confirm_test_$(echo $t | tr '/' '_').log 2>&1)
-  echo "TEST $t: $(grep -h '^# PASS:\|^# FAIL:\|^# ERROR:' $D/confirm_test_$(echo $t | tr '/' '_').log | tr '\n' ' ')"
+  echo "TEST $t: $(grep -h '^# PASS:\|^# FAIL:\|^# ERROR:\|tests\? passed\|tests\? failed' $D/confirm_test_$(echo $t | tr '/' '_').log | sort | uniq -c | tr '\n' ' ')"
 done
 demo() { # $1 tree  $2 out
-  g++ -std=c++11 -O0 -w -I$1/src -I$1 -I$1/tests -I$1/tests/Concrete_Expression $D/demo.cc -o /tmp/seed_demo_$$ -L$1/src/.libs -lppl -lgmpxx -lgmp -Wl,-rpath,$1/src/.libs > $2.build 2>&1 || { echo "demo build failed ($1)"; return 99; }
+  g++ -std=c++11 -O0 -w -I$1/src -I$1 -I$1/tests -I$1/tests/Concrete_Expression -I$1/interfaces $D/demo.cc -o /tmp/seed_demo_$$ -L$1/src/.libs -lppl -lgmpxx -lgmp -Wl,-rpath,$1/src/.libs > $2.build 2>&1 || { echo "demo build failed ($1)"; return 99; }
   /tmp/seed_demo_$$ > $2 2>&1; local rc=$?; rm -f /tmp/seed_demo_$$; return $rc
 }
 demo $BASE $D/confirm_demo_base.out; B=$?
